@@ -32,6 +32,7 @@ func main() {
 	}
 	start := time.Now()
 	o := NewOut(*out, f.Name)
+	o.tier = *tier
 	exec1 := func(line string) {
 		line = strings.TrimSpace(line)
 		if line == "" || strings.HasPrefix(line, "#") {
